@@ -98,9 +98,28 @@ def run(ctx):
     c10.semver_equality(ctx, "R09.6")
 
 
+def search_completeness(ctx):
+    """R09.3 `search-complete`: the aggregator's lookups of a semver-compatible existing entry (`find_semver_compatible_*`)
+    examine *every* candidate: inside the search loop the only way out is "found" (`Some`); a `None` / `?` exit inside the
+    loop gives up at the first candidate that has no semver track, and the later compatible entry is never merged or renamed."""
+    db = ctx.db
+    n = 0
+    for f in sorted((f for f in db.fns.values() if f.id.startswith(AG + "find_") and "{closure" not in f.id), key=lambda x: x.id):
+        ctx.touch(f)
+        for nx, kinds in loop_exit_kinds(f):
+            n += 1
+            bad = sorted(k for k in kinds if k in ("None", "residual"))
+            ctx.ob("R09.3", "search-complete|" + f.id.rsplit("::", 1)[1], not bad,
+                   "the candidate loop is left early only with a match" if not bad else
+                   "the candidate loop returns %s from inside the loop (%s): the search stops at the first entry without a semver track and a later compatible entry is missed"
+                   % ("/".join(bad), kinds[bad[0]]), site="%s in %s" % (nx.span, f.id))
+    ctx.ob("R09.3", "search-count", n >= 2, "semver-compatible search loops checked: %d" % n, nontrivial=False)
+
+
 def check_highest(ctx):
     """R09.3 / R03.4 in TypeAggregator::aggregate."""
     db, prov = ctx.db, ctx.prov
+    search_completeness(ctx)
     f = db.fn(AG + "aggregate")
     ctx.touch(f)
     cfg = CFG(f)
@@ -211,7 +230,7 @@ def check_used_types(ctx):
             if sw is not None:
                 tt, ft = true_false_targets(sw)
                 errs = error_blocks(f)
-                if any(cfg.reach_from(x) & errs and not (cfg.reach_from(x) & {r.bb for r in remaps}) for x in ft):
+                if any(cfg.reach_from(x) & errs and not (cfg.reach_from(x, cut=errs) & {r.bb for r in remaps}) for x in ft):
                     guarded = True
         ctx.ob("R09.4", "semver-guard|" + name, guarded,
                "an existing use from an incompatible interface version is rejected" if guarded else
@@ -223,7 +242,46 @@ def check_used_types(ctx):
     ctx.ob("R09.4", "count", n == 2, "used-type merge functions: %d" % n, nontrivial=False)
 
 
+def merge_totality(ctx, merges, rule="R09.1"):
+    """every element of a contributor's exports/imports is either checked against the existing entry or inserted: no
+    iteration of a merge loop over a foreign `exports`/`imports` map can come back to the loop head without having passed
+    is_subtype / a nested merge / an insert into the aggregated map (a `continue` that skips an entry drops that entry from
+    the union — the merged type then no longer satisfies the contributor)."""
+    db, prov = ctx.db, ctx.prov
+    n = 0
+    for f in sorted(merges, key=lambda x: x.id):
+        cfg = CFG(f)
+        name = f.id.rsplit("::", 1)[1]
+        errs = error_blocks(f)
+        for nx in f.calls():
+            if not (nx.path or "").endswith("::next") or nx.target is None or not cfg.reaches(nx.bb, nx.bb):
+                continue
+            rs = prov.slice(f, nx.args[0])
+            coll = sorted(x for x in ("exports", "imports") if rs.has_field(x))
+            tp = types_param(f)
+            foreign = tp is not None and any(i == tp for fid, i in rs.params if fid == f.id)
+            if not coll or not foreign:
+                continue
+            sw = cfg.blocks[nx.target].term
+            if sw.k != "switch":
+                continue
+            some = [tg for v, tg in sw.j["targets"] if v == 1]
+            if not some:
+                continue
+            acts = [t.bb for t in f.calls() if cfg.reaches(t.bb, nx.bb) and (
+                (t.path or "") in (CK + "is_subtype", CK + "core_extern") or (t.path or "").startswith(AG + "merge_") or (t.path or "").startswith(AG + "remap_")
+                or ((t.path or "").endswith("IndexMap::insert") and narrow(prov, f, t.args[0]).has_field("types", "aggregator::TypeAggregator")))]
+            n += 1
+            ok = bool(acts) and cfg.must_pass(acts, src=some[0], dsts={nx.bb}, cut=errs)
+            ctx.ob(rule, "every-entry|%s|%s" % (name, "/".join(coll)), ok,
+                   "every %s entry of the contributor is checked, merged or inserted" % "/".join(coll) if ok else
+                   "an iteration over the contributor's %s can return to the loop head without checking, merging or inserting the entry: that entry is dropped from the merged type" % "/".join(coll),
+                   site="%s in %s" % (nx.span, f.id))
+    ctx.ob(rule, "every-entry-count", n >= 4, "merge loops over a contributor's exports/imports: %d" % n, nontrivial=False)
+
+
 def merge_targets(ctx, merges, rule="R09.1"):
+    merge_totality(ctx, merges, rule)
     """the item merged from `types[id].<coll>` is inserted into `self.types[existing].<coll>` — the same collection."""
     db, prov = ctx.db, ctx.prov
     n = 0
